@@ -7,7 +7,7 @@ Lat == {0, 2, 30, 33, 50, 72, 75, 100, 101, 149, 250, 300, 1200}
 LimVecs == {<<a, a, a>> : a \in Lat} \cup {<<a, b, a>> : a \in Lat, b \in {0, 33, 75, 149, 300}} \cup {<<0, a, b>> : a \in {33, 100}, b \in {72, 250}}
 Cases == [model : {"ZNCC", "NCC", "PCC", "FSC"}, lim : LimVecs, data : {"noise", "zero", "constant", "unrelated", "beyond"},
           box : {<<4,4,4>>, <<5,5,5>>, <<8,8,8>>, <<6,7,9>>}, rot : BOOLEAN,
-          driver : {"model", "loader_scalar_or_tuple", "loader_nm", "loader_multi", "loader_list_nm", "loader_list_coarse", "group", "group_multi"}]
+          driver : {"model", "loader_scalar_or_tuple", "loader_nm", "loader_multi", "loader_list_nm", "loader_list_coarse", "group", "group_multi", "no_template", "group_no_template"}]
 MaxLim(c) == IF c.lim[1] >= c.lim[2] /\ c.lim[1] >= c.lim[3] THEN c.lim[1] ELSE IF c.lim[2] >= c.lim[3] THEN c.lim[2] ELSE c.lim[3]
 Valid(c) == /\ (c.model = "FSC" => MaxLim(c) <= 300)                  \* the FSC scan is cubic in the range
             /\ (MaxLim(c) = 1200 => c.box \in {<<4,4,4>>, <<5,5,5>>})
